@@ -8,6 +8,7 @@ CONSTANTS
   ProcSeedKs = {}
   RNG = "local"
   AddrBytes = "minimal"
+  NetBase = "masked"
 VIEW view
 INVARIANTS TypeOK Contained WellFormed
 CHECK_DEADLOCK FALSE
